@@ -1,9 +1,13 @@
 """C19 - version retrieval returns exactly the requested window despite paging and faults.
 
  R1 the page's own versions are kept and the recursive result is appended to them;
- R2 recursion only if the response is truncated, the page is non-empty and (start unset or last LastModified >= start);
+ R2 the recursion condition, evaluated with short-circuit order over (truncated, page empty, start unset, oldest version >= start),
+    satisfies  continue => truncated  and  truncated and (empty or start unset or oldest >= start) => continue  and never reads
+    versions[-1] of an empty list nor compares it with an unset start: a page that holds delete markers only neither fails nor ends
+    the listing (F31); stopping later than necessary is allowed (it only costs requests);
  R3 both continuation markers come from the same response, the path is passed on, and the request forwards the markers;
- R4 window filters `>= start`, `<= end`, each skipped when unset, applied to the combined list;
+ R4 window filters `>= start`, `<= end`, each skipped when unset, on every route from a page's versions to the result (on the
+    combined list, or on each page before it is concatenated);
  R5 empty listing -> None, propagated by get_versioned_results and turned into "no handler" by the client;
  R6 every sample-th listed version is requested; each frame is stamped, inside the loop that receives it together with its
     version, with that version's LastModified converted to the handler's timezone; request/return tuples keep version, buffer
@@ -50,6 +54,39 @@ def _self_attr(t, name):
     return t == ("attr", ("param", "self"), name)
 
 
+def _strip_filters(b, t):
+    """Peel window filters off a list term.  Recognised layers:  phi(self.X is not None ? list(filter(lambda v: .., SRC)) : SRC)  (also
+    a comprehension, also without list()) and the same filter applied unconditionally.  -> (core, {which: predicate term over
+    ('param','v')}) with which in {'start_date', 'end_date'}."""
+    preds = {}
+    while True:
+        guard = None
+        inner = t
+        if t[0] == "phi" and t[1][0] == "cmp" and t[1][1] in ("is not", "isnot") and t[1][3] == NONE and t[1][2][0] == "attr" \
+                and t[1][2][2] in ("start_date", "end_date"):
+            guard, inner = t[1][2][2], t[2]
+        if inner[0] == "call" and inner[1] == ("global", "list") and len(inner[2]) == 1:
+            inner = inner[2][0]
+        pred = src = None
+        if inner[0] == "call" and inner[1] == ("global", "filter") and len(inner[2]) == 2 and inner[2][0][0] == "lambda":
+            pred = b.lambda_apply(inner[2][0], [("param", "v")])
+            src = inner[2][1]
+        elif inner[0] == "comp" and len(inner[3]) == 1 and len(inner[3][0][2]) == 1:
+            pred = ir.subst(inner[3][0][2][0], {inner[2]: ("param", "v")})
+            src = inner[3][0][1]
+        if pred is None:
+            return t, preds
+        if guard is not None and t[3] != src:
+            return t, preds  # the two branches are different lists: not an optional filter
+        which = guard
+        if which is None:
+            which = next((a for a in ("start_date", "end_date") if any(_self_attr(x, a) for x in ir.walk(pred))), None)
+            if which is None:
+                return t, preds
+        preds.setdefault(which, pred)
+        t = src
+
+
 def check(ctx):
     repo = ctx.repo
     ctx.explanation = (
@@ -69,7 +106,14 @@ def check(ctx):
     joins = [t for t in terms if t[0] == "bin" and t[1] == "+" and (_is_rec(t[2]) or _is_rec(t[3]))]
     recs = [t for t in terms if _is_rec(t)]
     ctx.sites("C19.R1", len(recs), 1, "recursive list_versions call flowing into the result")
-    ok = bool(joins) and all((_is_page(j[2]) and _is_rec(j[3])) or (_is_page(j[3]) and _is_rec(j[2])) for j in joins)
+    def page_part(j):
+        return j[3] if _is_rec(j[2]) else j[2]
+
+    def raw_page_of(t):
+        core, preds = _strip_filters(b, t)
+        return (core if _is_page(core) else None), preds
+
+    ok = bool(joins) and all(raw_page_of(page_part(j))[0] is not None for j in joins)
     ctx.ob("C19.R1.append", f"{lv.qualname}|page + recursive result", ok, lv.where(),
            "result = this page's versions + versions of the following pages" if ok else
            ("the recursive result replaces the page's versions instead of extending them" if not joins
@@ -81,38 +125,115 @@ def check(ctx):
     ctx.sites("C19.R2", len(rphis) + (0 if joins else 1), 1, "condition guarding the recursion")
     for t in rphis[:1]:
         cond, other = t[1], t[3]
-        parts = list(cond[2]) if cond[0] == "bool" and cond[1] == "and" else [cond]
-        trunc = any(_resp_key(p, "IsTruncated") for p in parts)
-        nonempty = any((p[0] == "cmp" and p[1] in (">", "!=", ">=") and p[2][0] == "call" and p[2][1] == ("global", "len")
-                        and _is_page(p[2][2][0]) and p[3] == ("const", 0 if p[1] != ">=" else 1)) or _is_page(p) for p in parts)
-        startc = None
-        for p in parts:
-            if p[0] == "bool" and p[1] == "or" and len(p[2]) == 2:
-                a, c = p[2]
-                if a[0] == "cmp" and a[1] == "is" and _self_attr(a[2], "start_date") and a[3] == NONE:
-                    startc = c
-        ctx.ob("C19.R2.truncated", f"{lv.qualname}|recurse only if truncated", trunc, lv.where(),
-               "recursion requires response['IsTruncated']" if trunc else "recursion does not depend on IsTruncated")
-        ctx.ob("C19.R2.nonempty", f"{lv.qualname}|recurse only if page non-empty", nonempty, lv.where(),
-               "recursion requires a non-empty page" if nonempty else "recursion does not require a non-empty page (versions[-1] may fail / loop)")
-        ok = False
-        detail = "no clause '(start is None) or (last LastModified >= start)' in the recursion condition"
-        if startc is not None:
-            c = startc
-            if c[0] == "cmp" and _self_attr(c[3], "start_date"):
-                lhs = c[2]
-                last = (lhs[0] == "sub" and lhs[2] == ("const", "LastModified") and lhs[1][0] == "sub"
-                        and lhs[1][2] == ("const", -1) and _is_page(lhs[1][1]))
-                if not last:
-                    detail = f"early-stop test looks at {ir.show(lhs, maxdepth=3)}, not at the last (oldest) version of this page"
-                elif c[1] != ">=":
-                    detail = (f"early-stop test uses '{c[1]}': a page ending exactly at the window start would stop the listing although "
-                              f"the next page can hold versions with the same timestamp")
-                else:
-                    ok, detail = True, "continue while the oldest version of the page is still >= start (or start is unset)"
-        ctx.ob("C19.R2.window", f"{lv.qualname}|early stop at window start", ok, lv.where(), detail)
+        # The recursion condition is evaluated as a boolean function of facts about the page - T truncated, EP raw page empty (it can
+        # hold delete markers only), S start unset, LP oldest raw version >= start, and for a window-filtered copy of the page EF (empty;
+        # EP => EF) and LF - with Python's short-circuit order, and compared with what the property needs:
+        #     continue => T   (the markers exist only then)        T and (EP or S or LP) => continue   (later pages can hold versions of the window)
+        # Stopping earlier than that loses versions; going on longer than necessary only costs requests. `x[-1]` must never be evaluated
+        # on an empty list (IndexError) nor compared with an unset start (TypeError).
+        class _Unsafe(Exception):
+            pass
+
+        unknown = []
+        wrong_cmp = []
+
+        def listkind(x):
+            """'P' raw page, ('F', start_filtered) filtered copy of it, None otherwise"""
+            core, preds = _strip_filters(b, x)
+            if not _is_page(core):
+                return None
+            return "P" if not preds else ("F", "start_date" in preds)
+
+        def atom(p):
+            if _resp_key(p, "IsTruncated"):
+                return ("T",)
+            if p[0] == "cmp" and p[2][0] == "call" and p[2][1] == ("global", "len") and p[3][0] == "const" and listkind(p[2][2][0]):
+                k, c = p[1], p[3][1]
+                lk = listkind(p[2][2][0])
+                if (k, c) in ((">", 0), ("!=", 0), (">=", 1)):
+                    return ("NE", lk)
+                if (k, c) in (("==", 0), ("<", 1), ("<=", 0)):
+                    return ("E", lk)
+            if listkind(p):
+                return ("NE", listkind(p))
+            if p[0] == "cmp" and p[1] in ("is", "isnot", "is not") and _self_attr(p[2], "start_date") and p[3] == NONE:
+                return ("S",) if p[1] == "is" else ("NS",)
+            if p[0] == "cmp" and _self_attr(p[3], "start_date"):
+                lhs = p[2]
+                lk = listkind(lhs[1][1]) if (lhs[0] == "sub" and lhs[2] == ("const", "LastModified") and lhs[1][0] == "sub"
+                                             and lhs[1][2] == ("const", -1)) else None
+                if lk and p[1] == ">=":
+                    return ("L", lk)
+                if lk and p[1] == "<":
+                    return ("NL", lk)
+                wrong_cmp.append((ir.show(lhs, maxdepth=3), p[1], bool(lk)))
+                return ("L?", lk or "P")
+            return None
+
+        def ev(p, a):
+            if p[0] == "bool":
+                if p[1] == "and":
+                    for x in p[2]:
+                        if not ev(x, a):
+                            return False
+                    return True
+                for x in p[2]:
+                    if ev(x, a):
+                        return True
+                return False
+            if p[0] == "un" and p[1] == "not":
+                return not ev(p[2], a)
+            k = atom(p)
+            if k is None:
+                unknown.append(ir.show(p, maxdepth=4))
+                return False
+            if k[0] in ("E", "NE"):
+                e = a["EP"] if k[1] == "P" else a["EF"]
+                return e if k[0] == "E" else not e
+            if k[0] in ("L", "NL", "L?"):
+                raw = k[1] == "P"
+                if (a["EP"] if raw else a["EF"]):
+                    raise _Unsafe("the oldest-version test is evaluated on a list without versions (IndexError)")
+                if a["S"]:
+                    raise _Unsafe("the oldest-version test compares with a start that is unset (TypeError)")
+                val = a["LP"] if raw else (True if k[1][1] else a["LF"])
+                return (not val) if k[0] == "NL" else val
+            return {"T": a["T"], "S": a["S"], "NS": not a["S"]}[k[0]]
+
+        import itertools as _it
+        bad = {}
+        for T_, EP_, S_, LP_, EF_, LF_ in _it.product([True, False], repeat=6):
+            if EP_ and not EF_:
+                continue
+            a = {"T": T_, "EP": EP_, "S": S_, "LP": LP_, "EF": EF_, "LF": LF_}
+            must = T_ and (EP_ or S_ or LP_)
+            what = "without versions" if EP_ else ("whose oldest version is >= start" if LP_ else "whose oldest version is < start")
+            try:
+                got = ev(cond, a)
+            except _Unsafe as e:
+                bad.setdefault("unsafe", f"truncated={T_}, page {what}, start {'unset' if S_ else 'set'}: {e}")
+                continue
+            if got and not T_:
+                bad.setdefault("truncated", f"not truncated, page {what}: the listing continues although there are no continuation markers")
+            if must and not got:
+                bad.setdefault("empty" if EP_ else "window", f"truncated, page {what}{' (its window-filtered copy is empty)' if EF_ and not EP_ else ''}, start "
+                               f"{'unset' if S_ else 'set'}: the listing stops, the following pages can hold versions of the window")
+        if wrong_cmp and "window" not in bad:
+            lhs_, op_, last_ = wrong_cmp[0]
+            bad["window"] = (f"early-stop test uses '{op_}': a page ending exactly at the window start would stop the listing although the next page can "
+                             f"hold versions with the same timestamp" if last_ else
+                             f"early-stop test looks at {lhs_}, not at the last (oldest) version of this page")
+        if unknown and not bad:
+            bad["window"] = f"recursion condition has a clause that is not understood: {unknown[0]}"
+        ctx.ob("C19.R2.truncated", f"{lv.qualname}|recurse only if truncated", "truncated" not in bad, lv.where(),
+               "recursion requires response['IsTruncated']" if "truncated" not in bad else bad["truncated"])
+        ctx.ob("C19.R2.nonempty", f"{lv.qualname}|a page without versions neither fails nor ends the listing", not ({"unsafe", "empty"} & set(bad)), lv.where(),
+               "on a page without versions (delete markers only) the oldest-version test is not evaluated and the listing continues while truncated"
+               if not ({"unsafe", "empty"} & set(bad)) else bad.get("unsafe", bad.get("empty")))
+        ctx.ob("C19.R2.window", f"{lv.qualname}|early stop at window start", "window" not in bad, lv.where(),
+               "the listing continues at least while the oldest version of the page is still >= start (or start is unset)" if "window" not in bad else bad["window"])
         same = other == t[2][2] or other == t[2][3]
-        ctx.ob("C19.R2.else", f"{lv.qualname}|no recursion keeps the page", same and _is_page(other), lv.where(),
+        ctx.ob("C19.R2.else", f"{lv.qualname}|no recursion keeps the page", same and raw_page_of(other)[0] is not None, lv.where(),
                "without recursion the page's versions are the result" if same else "without recursion the result is not the page's versions")
     # ---- R3 ------------------------------------------------------------------------------
     for r in recs[:1]:
@@ -133,45 +254,43 @@ def check(ctx):
            "request = (Bucket=self.bucket_name, Prefix=path, **markers)" if okr else
            f"request is {ir.show(resp, maxdepth=3)}: " + ("continuation markers (**kwargs) are not forwarded, so every page is the first page" if not fwd else "bucket/prefix differ"))
     # ---- R4 ------------------------------------------------------------------------------
-    found = {}
-    combined_ok = {}
-    for t in terms:
-        if t[0] != "phi":
-            continue
-        c, a, bb = t[1], t[2], t[3]
-        if not (c[0] == "cmp" and c[1] == "is not" and c[3] == NONE and c[2][0] == "attr" and c[2][2] in ("start_date", "end_date")):
-            continue
-        which = c[2][2]
-        inner = a
-        if inner[0] == "call" and inner[1] == ("global", "list") and len(inner[2]) == 1:
-            inner = inner[2][0]
-        pred, src = None, None
-        if inner[0] == "call" and inner[1] == ("global", "filter") and len(inner[2]) == 2 and inner[2][0][0] == "lambda":
-            pred = b.lambda_apply(inner[2][0], [("param", "v")])
-            src = inner[2][1]
-        elif inner[0] == "comp" and len(inner[3]) == 1 and len(inner[3][0][2]) == 1:
-            el = inner[2]
-            pred = ir.subst(inner[3][0][2][0], {el: ("param", "v")})
-            src = inner[3][0][1]
-        if pred is None:
-            raise AnalysisError(f"{lv.where()}: window filter idiom for {which} not recognised: {ir.show(a, maxdepth=4)}")
-        found[which] = pred
-        combined_ok[which] = (src == bb) and any(j in set(ir.walk(src)) for j in joins)
+    # every version that reaches the result has passed both window filters: the filters peeled off the returned term apply to
+    # everything below them; what they leave unfiltered has to be filtered on its own way up (the page part of the concatenation and
+    # the page returned without recursion). The recursive result is filtered by the recursive call itself.
+    core0, outer = _strip_filters(b, ret)
+    routes = []
+    if core0[0] == "phi" and any(jn == core0[2] or jn == core0[3] for jn in joins):
+        jn = core0[2] if core0[2] in joins else core0[3]
+        routes = [("page of a listing that goes on", page_part(jn)), ("page of a listing that ends", core0[3] if jn == core0[2] else core0[2])]
+    elif core0 in joins:
+        routes = [("page", page_part(core0))]
+    if not routes:
+        ctx.ob("C19.R4.combined", f"{lv.qualname}|the page's versions reach the result", False, lv.where(),
+               f"the result is not (the page's versions + the following pages), optionally filtered: {ir.show(core0, maxdepth=4)[:200]}")
     for which, op in (("start_date", ">="), ("end_date", "<=")):
-        p = found.get(which)
-        ok = (p is not None and p[0] == "cmp" and p[1] == op and p[2] == ("sub", ("param", "v"), ("const", "LastModified"))
-              and _self_attr(p[3], which))
         flipped = {">=": "<=", "<=": ">="}[op]
-        if p is not None and not ok and p[0] == "cmp" and p[1] == flipped and p[3] == ("sub", ("param", "v"), ("const", "LastModified")) and _self_attr(p[2], which):
-            ok = True
+
+        def good(p_):
+            return (p_[0] == "cmp" and ((p_[1] == op and p_[2] == ("sub", ("param", "v"), ("const", "LastModified")) and _self_attr(p_[3], which))
+                                        or (p_[1] == flipped and p_[3] == ("sub", ("param", "v"), ("const", "LastModified")) and _self_attr(p_[2], which))))
+
+        seen = [outer[which]] if which in outer else []
+        missing = []
+        for name, part in routes:
+            _, inner_p = raw_page_of(part)
+            if which in inner_p:
+                seen.append(inner_p[which])
+            elif which not in outer:
+                missing.append(name)
+        ok = bool(seen) and all(good(p_) for p_ in seen)
         ctx.ob("C19.R4.filter", f"{lv.qualname}|{which} filter", ok, lv.where(),
                f"keeps v with v['LastModified'] {op} {which}, skipped when {which} is None" if ok else
-               (f"no filter on {which} (skipped-when-None form) is applied to the result" if p is None
-                else f"{which} filter keeps {ir.show(p, maxdepth=4)} (inclusive '{op}' required)"))
-        if p is not None:
-            ctx.ob("C19.R4.combined", f"{lv.qualname}|{which} filter on combined list", combined_ok[which], lv.where(),
-                   "filter is applied to the page + following pages" if combined_ok[which]
-                   else "filter is not applied to the combined list (versions of later pages escape the window)")
+               (f"no filter on {which} (skipped-when-None form) is applied to the result" if not seen
+                else f"{which} filter keeps {ir.show(next(p_ for p_ in seen if not good(p_)), maxdepth=4)} (inclusive '{op}' required)"))
+        if seen:
+            ctx.ob("C19.R4.combined", f"{lv.qualname}|{which} filter on every route to the result", not missing, lv.where(),
+                   "every version that reaches the result has passed the filter" if not missing
+                   else f"the {which} filter is not on the way of the {', '.join(missing)}: versions outside the window escape")
     ctx.ob("C19.R1.stray", f"{lv.qualname}|recursive result only inside the concatenation", not stray, lv.where(),
            "recursive result is used only as part of the concatenation" if not stray else "recursive result also flows to the result on its own")
 
